@@ -30,7 +30,7 @@ from fractions import Fraction as F
 import core
 from core import cz, cq, clist, ctuple, cbool
 
-EXPECT_MIN = 37
+EXPECT_MIN = 44
 PAIRS = [(480, 500000), (96, 600000), (1000, 333333), (1, 10 ** 6), (4, 250000), (384, 250000), (960, 1000000)]
 KEYNAMES = ["Cb", "Gb", "Db", "Ab", "Eb", "Bb", "F", "C", "G", "D", "A", "E", "B", "F#", "C#",
             "Abm", "Ebm", "Bbm", "Fm", "Cm", "Gm", "Dm", "Am", "Em", "Bm", "F#m", "C#m", "G#m", "D#m", "A#m"]
@@ -2204,6 +2204,158 @@ def corpus_perf():
     return out
 
 
+# ----------------------------------------------------------------------------
+# (t) one file, every tempo change of every track, loaded with merge_tracks=False AND =True (round j)
+
+
+def gen_tempo_file(rng):
+    """2-4 tracks whose set_tempo events are spread over the tracks: ticks on a coarse grid (so that changes of different
+    tracks share ticks), changes in later tracks at earlier ticks, repeats of the value read last, tracks without any;
+    every (channel, pitch) lives in one track only, so that the merged reading is inside C06's proviso as well."""
+    ppq = rng.choice([480, 96, 1000, 1, 384, 24, 960])
+    ntr = rng.choice([2, 2, 3, 3, 4])
+    mode = rng.choice(["any", "any", "any", "later_only", "later_only", "first", "one_later", "none"])
+    keys = [(c, p) for c in rng.sample(range(16), 2) for p in rng.sample(range(128), 4)]
+    tracks = []
+    last_read = None
+    for i in range(ntr):
+        evs, sounding = [], {}
+        mykeys = [k for j, k in enumerate(keys) if j % ntr == i]
+        allowed = mode == "any" or (mode == "first" and i == 0) or (mode == "later_only" and i > 0) or (mode == "one_later" and i == ntr - 1)
+        for _ in range(rng.choice([2, 4, 8, 14])):
+            d = rng.choice([0, 0, 1, 60, 240, 240, 480, 960])
+            r = rng.random()
+            if r < 0.35 and allowed:
+                if last_read is not None and rng.random() < 0.3:
+                    v = last_read  # repeats the value read last (in another track it may still be a change at its tick)
+                else:
+                    v = rng.choice(TEMPI) if rng.random() < 0.85 else rng.randint(1, 3000000)
+                last_read = v
+                evs.append((d, ("tempo", v)))
+            elif r < 0.75 and mykeys:
+                free = [k for k in mykeys if k not in sounding]
+                if free and (not sounding or rng.random() < 0.6):
+                    k = rng.choice(free)
+                    sounding[k] = True
+                    evs.append((d, ("on", k[0], k[1], rng.randint(1, 127))))
+                else:
+                    k = rng.choice(sorted(sounding))
+                    del sounding[k]
+                    evs.append((d, ("on", k[0], k[1], 0) if rng.random() < 0.4 else ("off", k[0], k[1], rng.randint(0, 127))))
+            elif r < 0.9:
+                evs.append((d, ("cc", rng.randrange(16), rng.choice([64, 67, rng.randint(0, 127)]), rng.randint(0, 127))))
+            else:
+                evs.append((d, ("pc", rng.randrange(16), rng.randint(0, 127))))
+        for k in sorted(sounding):
+            evs.append((rng.choice([0, 1, 240]), ("off", k[0], k[1], 0)))
+        if rng.random() < 0.5:
+            evs.append((rng.choice([0, 0, 480]), ("eot",)))
+        tracks.append(evs)
+    return dict(ppq=ppq, tracks=tracks, bpm=rng.choice([120] * 4 + BPMS), first=rng.choice(["u", "m"]), same_object=rng.random() < 0.6)
+
+
+def tempo_steps(case, variant="all"):
+    """the tempo step function of a file: by the property (all tracks, tick order, the one read last at a tick wins), or as two
+    slips would make it (used only to measure how many generated files tell them apart)"""
+    tempi = []
+    for i, evs in enumerate(case["tracks"]):
+        t = 0
+        for j, (d, sp) in enumerate(evs):
+            t += d
+            if sp[0] == "tempo" and not (variant == "first_track" and i > 0):
+                tempi.append((t, i, j, sp[1]))
+    if variant == "dedup_reading":
+        kept, last = [], default_mpq(case)
+        for e in tempi:
+            if e[3] != last:
+                kept.append(e)
+                last = e[3]
+        tempi = kept
+    return [(0, default_mpq(case))] + [(t, m) for t, _, _, m in sorted(tempi)]
+
+
+def sec_of(steps, ppq, tick):
+    total = F(0)
+    for n, (t0, m) in enumerate(steps):
+        t1 = steps[n + 1][0] if n + 1 < len(steps) else None
+        if tick <= t0:
+            break
+        hi = tick if t1 is None else min(tick, t1)
+        total += F(hi - t0) * m / (10 ** 6 * ppq)
+    return total
+
+
+def timed_points(obs):
+    pts = {}
+    for o in obs:
+        for n in o["notes"]:
+            pts.setdefault(n["on_tick"], []).append(n["on"])
+            pts.setdefault(n["off_tick"], []).append(n["off"])
+        for c in o["ctrls"] + o["progs"]:
+            pts.setdefault(c["tick"], []).append(c["t"])
+    return pts
+
+
+def run_tempo_file(case):
+    """load the same file without and with merge_tracks (in either order, on one MidiFile object or on two); oracle (b) on both
+    results, and the seconds of a tick must not depend on the option.  Returns failures, (mf, points unmerged, points merged)."""
+    from partitura.io.importmidi import load_performance_midi
+
+    mf = build_midi(case)
+    res = {}
+    for mode in (case.get("first", "u"), "m" if case.get("first", "u") == "u" else "u"):
+        arg = mf if case.get("same_object", True) else build_midi(case)
+        try:
+            perf = load_performance_midi(arg, default_bpm=case.get("bpm", 120), merge_tracks=(mode == "m"))
+        except Exception as e:
+            return ["load_performance_midi(merge_tracks=%s) raised %s: %s" % (mode == "m", type(e).__name__, e)], None
+        obs = observe_perf(perf)
+        bad = oracle_midi(dict(case, merge=(mode == "m")), obs)
+        if bad:
+            return ["merge_tracks=%s: %s" % (mode == "m", b) for b in bad], None
+        res[mode] = timed_points(obs)
+        res[mode + "n"] = sorted((n["pitch"], n["vel"], n["ch"], n["on_tick"], n["off_tick"]) for o in obs for n in o["notes"])
+    bad = []
+    if res["un"] != res["mn"]:
+        bad.append("the notes (pitch, velocity, channel, on tick, off tick) of the file differ between merge_tracks=False and =True (every key lives in one track): "
+                   "only without %s, only with %s" % ([x for x in res["un"] if x not in res["mn"]][:3], [x for x in res["mn"] if x not in res["un"]][:3]))
+    for mode in ("u", "m"):
+        for tick, secs in sorted(res[mode].items()):
+            if max(secs) - min(secs) > 1e-9 * max(1.0, abs(max(secs))):
+                bad.append("merge_tracks=%s: tick %d of one file loaded as %r and as %r s" % (mode == "m", tick, min(secs), max(secs)))
+    for tick in sorted(set(res["u"]) & set(res["m"])):
+        a, b = res["u"][tick][0], res["m"][tick][0]
+        if abs(a - b) > 1e-9 * max(1.0, abs(a)):
+            bad.append("tick %d is at %r s without merge_tracks and at %r s with it" % (tick, a, b))
+    return bad[:5], (mf, res["u"], res["m"], res["un"], res["mn"])
+
+
+def term_anyfile(case, mf, pu, pm):
+    intern = Intern()
+    pts = lambda d: clist([ctuple([cz(t), core.cfloat_q(d[t][0])]) for t in sorted(d)])
+    return ctuple([cz(case["ppq"]), cz(int(default_mpq(case))), clist([c_track(t, intern) for t in mf.tracks]), pts(pu), pts(pm)])
+
+
+def term_anyfile_notes(mf, nu, nm):
+    intern = Intern()
+    ns = lambda l: clist(["(mkLN %s %s %s %s %s)" % tuple(cz(v) for v in n) for n in l])
+    return ctuple([clist([c_track(t, intern) for t in mf.tracks]), ns(nu), ns(nm)])
+
+
+def corpus_tempo_files():
+    """the file of Proofs/C06_file.v (fx_tracks) and the witnesses of its refutations"""
+    fx = [[(0, ("on", 0, 60, 64)), (1440, ("off", 0, 60, 0))],
+          [(960, ("tempo", 600000)), (240, ("tempo", 500000)), (0, ("cc", 0, 64, 127))],
+          [(240, ("tempo", 250000)), (720, ("tempo", 400000)), (0, ("on", 1, 62, 50)), (480, ("on", 1, 62, 0))]]
+    dd = [[(960, ("tempo", 600000))], [(240, ("tempo", 600000)), (240, ("tempo", 250000)), (0, ("on", 0, 60, 1)), (960, ("off", 0, 60, 0))]]
+    fy = [[(0, ("on", 0, 60, 64)), (480, ("off", 0, 60, 0)), (0, ("on", 0, 60, 30)), (0, ("on", 0, 60, 0)), (0, ("eot",))],
+          [(240, ("tempo", 250000)), (0, ("on", 1, 60, 70)), (240, ("on", 1, 60, 0)), (0, ("on", 0, 61, 9)), (100, ("off", 0, 61, 0))]]
+    zl = [[(10, ("on", 0, 60, 64)), (0, ("off", 0, 60, 0))], [(0, ("on", 1, 62, 1)), (5, ("off", 1, 62, 0))]]
+    return [dict(ppq=480, tracks=fx, bpm=120, first="u", same_object=True), dict(ppq=480, tracks=fx, bpm=120, first="m", same_object=True),
+            dict(ppq=480, tracks=dd, bpm=120, first="m", same_object=False), dict(ppq=480, tracks=fy, bpm=120, first="m", same_object=True),
+            dict(ppq=96, tracks=zl, bpm=100, first="u", same_object=True)]
+
+
 def corpus_midi():
     """D12: tempo at tick 960 in track 0 and at tick 240 in track 1; a repeat of the previously read tempo in a later track."""
     t0 = [(960, ("tempo", 600000)), (0, ("on", 0, 60, 64)), (480, ("off", 0, 60, 0))]
@@ -2241,8 +2393,13 @@ def run(ctx):
                 "Performance(...) again, sanitize_track_numbers(), perf[i] = part, edits of the caller's list, writing into returned MidiFile / Performance / arrays, "
                 "load (object / path / load_performance), the same file object and path edited in place, conversion calls on scalars and 0-d / one-element / empty arrays; "
                 "every observation judged against the current state (property oracles + the same call on freshly built objects), 30% start from a loaded file.  "
+                "(t) one file read twice: 2-4 tracks with the set_tempo events spread over the tracks (any / later tracks only / the last track only / the first / none; ticks on a "
+                "coarse grid so that changes of different tracks share ticks, later tracks changing the tempo at earlier ticks, 30% repeats of the value read last), every (channel, "
+                "pitch) in one track only, zero-length notes and re-strikes; loaded with merge_tracks=False and =True in either order, on one MidiFile object (60%) or two; oracle (b) on "
+                "both results, the seconds of a tick and the notes must not depend on the option.  "
                 "Non-trivial = (a) a case with >= 2 notes or a merge; (b) a file with a tempo change in a track other than the first "
-                "or >= 2 tempo changes; (d) >= 2 (part, track) pairs; (e) first_note_at_zero on >= 2 notes; (h) a history with a save / load after an edit.")
+                "or >= 2 tempo changes; (d) >= 2 (part, track) pairs; (e) first_note_at_zero on >= 2 notes; (h) a history with a save / load after an edit; "
+                "(t) set_tempo in a later track or in >= 2 tracks.")
     ctx.trusted = ["Coq 8.16.1 kernel incl. vm_compute", "harness/props/c06.py (generators, mido message printer, Python oracles)", "mido 1.3 (MidiFile, merge_tracks, file reader/writer)"]
     ctx.assumptions = [
         "times whose exact tick position is within 2^-20 of .5 without being on it (or whose float evaluation is inexact at a tie) are not generated into compared cases (counted)",
@@ -2396,6 +2553,76 @@ def run(ctx):
         for i in failing[:3]:
             ctx.violation("model and implementation disagree on load_performance_midi", {"kind": "midi-model", "case": load_cases[i]})
     ctx.log("(b) done: %d files compared" % len(load_terms))
+    # ---- (t) round j: one file, all tracks' tempo changes, both merge modes
+    n_t = 200 if quick else 3000
+    any_terms, anyn_terms, any_cases = [], [], []
+    n_tv = 0
+    for case in corpus_tempo_files() + [gen_tempo_file(rng) for _ in range(n_t)]:
+        bad, extra = run_tempo_file(case)
+        ctx.evaluations += 1
+        if bad:
+            if n_tv < 4:
+                small = shrink_midi(case, bad[0][:30], runner=run_tempo_file)
+                b2, _ = run_tempo_file(small)
+                ctx.violation("C06 (load, one file read without and with merge_tracks) fails on the implementation: " + "; ".join((b2 or bad)[:3]),
+                              {"kind": "tempo-file", "case": small, "failures": (b2 or bad)[:5]})
+            n_tv += 1
+            continue
+        mf, pu, pm, nu, nm = extra
+        ticks = sorted(set(pu) | set(pm))
+        true = tempo_steps(case)
+        per_track = [sum(1 for d, sp in evs if sp[0] == "tempo") for evs in case["tracks"]]
+        ctx.count("t:files loaded twice (merge_tracks=False and =True)")
+        ctx.count("t:set_tempo in %s" % ("no track" if not any(per_track) else "the first track only" if not any(per_track[1:]) else
+                                        "later tracks only" if not per_track[0] else "the first and later tracks"))
+        ctx.count("t:tracks with set_tempo = %d" % sum(1 for x in per_track if x))
+        abs_t = []
+        for i, evs in enumerate(case["tracks"]):
+            t = 0
+            for d, sp in evs:
+                t += d
+                if sp[0] == "tempo":
+                    abs_t.append((t, i))
+        if any(a[0] == b[0] and a[1] != b[1] for a in abs_t for b in abs_t):
+            ctx.count("t:two tracks with a set_tempo at one tick")
+        if any(a[0] > b[0] and a[1] < b[1] for a in abs_t for b in abs_t):
+            ctx.count("t:a later track changes the tempo at an earlier tick than an earlier track")
+        for variant, label in (("first_track", "a reader of the first track's set_tempo only"), ("dedup_reading", "a reader dropping repeats of the value read last")):
+            st = tempo_steps(case, variant)
+            if any(sec_of(st, case["ppq"], k) != sec_of(true, case["ppq"], k) for k in ticks):
+                ctx.count("t:files on which %s would give other seconds" % label)
+        ctx.count("t:%s first, %s" % ("unmerged" if case["first"] == "u" else "merged", "same MidiFile object" if case["same_object"] else "two objects"))
+        ctx.count("t:compared (tick, seconds) points", len(pu) + len(pm))
+        if sum(1 for x in per_track if x) >= 2 or any(per_track[1:]):
+            ctx.nontrivial("t" + json.dumps(case, sort_keys=True))
+        any_terms.append(term_anyfile(case, mf, pu, pm))
+        anyn_terms.append(term_anyfile_notes(mf, nu, nm))
+        any_cases.append(case)
+        ctx.count("t:notes compared (each read twice)", len(nu))
+        abs_ev = sorted((t, i) for i, tr in enumerate(mf.tracks) for t, m in zip(__import__("itertools").accumulate(x.time for x in tr), tr) if m.type in ("note_on", "note_off"))
+        if any(a[0] == b[0] and a[1] != b[1] for a, b in zip(abs_ev, abs_ev[1:])):
+            ctx.count("t:files with note messages of two tracks at one tick")
+        if any(n[3] == n[4] for n in nu):
+            ctx.count("t:files with a zero-length note")
+        if len({(n[2], n[0]) for n in nu}) < len(nu):
+            ctx.count("t:files with a key struck more than once")
+    if ok and any_terms:
+        imports_t = "From PV Require Import Lib.Base Model.C06 Model.C06_file."
+        failing = ctx.coq_failing("anyfile", imports_t, pv_ty("(Z * Z * list (list (Z * msg)) * list (Z * Q) * list (Z * Q))%type"), typed(any_terms), "check_anyfile",
+                                  shard=shard_for(len(any_terms), 100))
+        ctx.obligation("correspondence: the seconds load_performance_midi gives the ticks of a file, read without and with merge_tracks, are Model.C06_file.file_seconds "
+                       "(every set_tempo of every track, tick order; 1e-9) and Model.C06.load's tempo list gives the same seconds in both modes, on %d files" % len(any_terms),
+                       not failing, failing[:5])
+        for i in failing[:3]:
+            ctx.violation("model and implementation disagree on the seconds of a file read without / with merge_tracks", {"kind": "tempo-file", "case": any_cases[i]})
+        failing = ctx.coq_failing("anyfile_notes", imports_t, pv_ty("(list (list (Z * msg)) * list lnote * list lnote)%type"), typed(anyn_terms), "check_anyfile_notes",
+                                  shard=shard_for(len(anyn_terms), 100))
+        ctx.obligation("correspondence: the notes (pitch, velocity, channel, ticks) of all parts load_performance_midi returns for a file whose keys live in one track each are, "
+                       "as multisets, Model.C06_file.file_notes_separate without merge_tracks and file_notes_merged with it, and equal, on %d files" % len(anyn_terms),
+                       not failing, failing[:5])
+        for i in failing[:3]:
+            ctx.violation("model and implementation disagree on the notes of a file read without / with merge_tracks", {"kind": "tempo-file", "case": any_cases[i]})
+    ctx.log("(t) done: %d files compared" % len(any_terms))
     imports2 = "From PV Require Import Lib.Base Model.C06 Model.C06_perf."
     # ---- (d) Performance(...) renumbering
     san_terms, san_exact, san_cases = [], [], []
@@ -2614,6 +2841,18 @@ def replay(obj):
         bad, extra = run_midi_case(case)
         if extra:
             print("loaded:", json.dumps(extra[1], indent=1, default=str)[:4000])
+        print("oracle:", bad or "holds")
+    elif kind == "tempo-file":
+        case = r["case"]
+        case["tracks"] = [[(d, tuple(sp)) for d, sp in tr] for tr in case["tracks"]]
+        bad, extra = run_tempo_file(case)
+        if extra:
+            print("(tick -> seconds) without merge_tracks:", sorted((t, v[0]) for t, v in extra[1].items())[:40])
+            print("(tick -> seconds) with merge_tracks:   ", sorted((t, v[0]) for t, v in extra[2].items())[:40])
+        if extra:
+            print("notes without merge_tracks:", extra[3][:40])
+            print("notes with merge_tracks:   ", extra[4][:40])
+        print("by the property (all tracks, tick order):", [(t, float(sec_of(tempo_steps(case), case["ppq"], t))) for t in sorted(set(extra[1]) | set(extra[2]))][:40] if extra else "")
         print("oracle:", bad or "holds")
     elif kind == "sanitize":
         bad, extra = run_sanitize_case(r["case"])
